@@ -1,7 +1,7 @@
 \* Grammar: every base name of <= MaxComp components over the component alphabet x 0..1 remapping
 CONSTANTS
   Components <- CompSet
-  CompSet = {"x", "X", "", "bak", "d", "ts", "go", "mod", "Makefile", "makefile", "py", "PY", "rs", "md", "cxx", "sum"}
+  CompSet = {"x", "X", "", "bak", "d", "ts", "go", "mod", "Makefile", "makefile", "py", "PY", "rs", "md", "cxx", "sum", "MAKEFILE", "Gemfile", "uname"}
   MaxComp = 3
   Table <- MCTable
   RemapPool <- MCRemapPool
